@@ -53,6 +53,18 @@ def classify(field):
     return field, "[...]"
 
 
+def model_listing(names):
+    """menu's classification by the Lean model `MenuClass.variables` on the database of the module under test:
+    {"vars": listing in the order shown, "units": per field, "species": [...]}; None when a name is not ASCII or the
+    database uses a pattern outside the modelled subset"""
+    if not all(ord(c) < 128 for f in names for c in f):
+        return None
+    t = pristine_table()
+    r = leanio.driver([{"op": "menu_vars", "table": [[k, v[0], v[2]] for k, v in t.items()], "fields": list(names),
+                        "species_pattern": t["Y"][0]}])[0]
+    return r if r.get("status") == "ok" else None
+
+
 def run_main(mod, argv):
     old = sys.argv
     sys.argv = argv
@@ -219,11 +231,19 @@ def run_spec(ctx, rep, spec, model, only=None):
                     missing = [w for w in want if w not in listed]
                     rep.fail(f"default listing shows {listed}; every field should be classified exactly once: {want} (missing {missing})", case)
                 sp = sorted(re.sub(r"\)$", "", re.sub(r"^Y\(", "", f)) for f in names if re.search(r"^Y\(.+\)$", f))
+                got = None
                 if has_species:
                     sbody = out.split("Species found in file:")[1] if "Species found in file:" in out else ""
                     got = [w for l in sbody.split("\n") if l and not l.startswith("+") for w in l.split()]
                     if got != sp:
                         rep.fail(f"species listing {got} != {sp}", case)
+                ml = model_listing(names) if model else None
+                if ml is not None:
+                    if listed == ml["vars"] and (got is None or got == ml["species"]):
+                        rep.agree(); rep.count("listing-is-the-classification-model's")
+                    else:
+                        rep.tie("default listing differs from the Lean classification model (MenuClass.variables / species)", case,
+                                {"real": listed[:12], "model": ml["vars"][:12], "species": (got or [])[:6], "model_species": (ml["species"] or [])[:6]})
             elif tool in ("menu-mm", "menu-finest", "menu-mm-finest", "menu-mm-desc"):
                 flags = {"menu-mm": ["-m"], "menu-finest": ["-f"], "menu-mm-finest": ["-m", "-f"], "menu-mm-desc": ["-d", "-m"]}[tool]
                 out = run_main(menucli, ["menu", path] + flags)
@@ -234,12 +254,27 @@ def run_spec(ctx, rep, spec, model, only=None):
                 if not bad and model:
                     reqs.append((case, order, {"op": "menu_table", "n": nf}))
                     extrema_tie(rep, case, P, "-f" in flags, leanio)
+                    ml = model_listing(names)
+                    if ml is not None:
+                        shown = [LAST_ROWS[nm][0][2] if len(LAST_ROWS.get(nm, [])) == 1 else None for nm in names]
+                        if shown == ml["units"]:
+                            rep.agree(); rep.count("units-are-the-classification-model's")
+                        else:
+                            rep.tie("units column of the min/max table differs from the Lean classification model", case,
+                                    {"real": shown[:10], "model": ml["units"][:10]})
             elif tool == "menu-desc":
                 out = run_main(menucli, ["menu", path, "-d"])
                 want = sorted({classify(f)[0] for f in names}, key=str.lower)
                 got = [l.split(" : ")[0].rstrip() for l in out.split("\n") if " : " in l]
                 if sorted(got) != sorted(want) and not listing_ok(got, names):
                     rep.fail(f"description listing shows {got}, expected {want}", case)
+                ml = model_listing(names) if model else None
+                if ml is not None:
+                    if got == ml["vars"]:
+                        rep.agree(); rep.count("listing-is-the-classification-model's")
+                    else:
+                        rep.tie("description listing differs from the Lean classification model (MenuClass.variables)", case,
+                                {"real": got[:12], "model": ml["vars"][:12]})
             elif tool == "menu-every":
                 # every entry of the database and every other field of the header, each with whether it is in the plotfile
                 out = run_main(menucli, ["menu", path, "-e"])
